@@ -79,7 +79,7 @@ func refParseGRPC(s string) (d time.Duration, unbounded, ok, judged bool) {
 		digits = s[:len(s)-1]
 	}
 	if strings.HasPrefix(digits, "+") || strings.HasPrefix(digits, "-") {
-		return 0, false, false, false // signed numbers: not judged
+		return 0, false, false, true // a sign is not a decimal digit: malformed
 	}
 	allDigits := digits != ""
 	for i := 0; i < len(digits); i++ {
@@ -109,7 +109,7 @@ func refParseConnect(s string) (d time.Duration, unbounded, ok, judged bool) {
 		return 0, true, true, true
 	}
 	if strings.HasPrefix(s, "+") || strings.HasPrefix(s, "-") {
-		return 0, false, false, false
+		return 0, false, false, true // a sign is not a decimal digit: malformed
 	}
 	for i := 0; i < len(s); i++ {
 		if s[i] < '0' || s[i] > '9' {
@@ -250,7 +250,9 @@ func c10ClientCheck(c *ev.Collector, k c10ClientCase) {
 			ctx1, cancel1 := context.WithTimeout(context.Background(), 30*time.Second)
 			_, _ = cl.CallUnary(ctx1, req)
 			cancel1()
-			ctx, cancel = context.WithTimeout(context.Background(), k.D)
+			if k.D > 0 {
+				ctx, cancel = context.WithTimeout(context.Background(), k.D)
+			} // D == 0: the second call has no deadline at all
 			_, res.Err = cl.CallUnary(ctx, req)
 		}, tr)
 	} else {
@@ -488,7 +490,7 @@ func respCode(p Proto, kind Kind, rec *httptest.ResponseRecorder) string {
 }
 
 func c10HeaderStrings(thorough bool) []string {
-	alpha := "019numSMHx -"
+	alpha := "019numSMHx -+"
 	maxLen := 3
 	if thorough {
 		maxLen = 4
@@ -556,10 +558,78 @@ func c10Pure(c *ev.Collector, thorough bool) {
 	c.Bound("pure_encoder_range_ns", limit)
 }
 
+// c10LateSend: a client- or bidi-streaming call is created when its context
+// has D left; the first Send - which is when the request leaves - happens
+// 400 ms later.  The timeout the server receives must not exceed what is left
+// at that moment.
+func c10LateSend(t *testing.T, c *ev.Collector) {
+	const gap = 400 * time.Millisecond
+	idx := 0
+	for _, p := range AllProtos {
+		for _, kind := range []Kind{KClient, KBidi} {
+			for _, d := range []time.Duration{1500 * time.Millisecond, 2 * time.Hour} {
+				idx++
+				if !ev.Mine(idx) {
+					continue
+				}
+				key := fmt.Sprintf("client/%s/%s/%d/late-send", p, kind, int64(d))
+				c.Case(key, true)
+				Bubble(t, func() {
+					probe := &ctxProbe{}
+					h := c10Handler(kind, probe)
+					tr := &memhttp.Transport{Handler: h, Proto: 2, SyncCloseReq: true}
+					cl := NewClient(tr, Cfg{Proto: p, Comp: CompNone})
+					ctx, cancel := context.WithTimeout(context.Background(), d)
+					defer cancel()
+					var sentAt time.Time
+					g := GuardedFor(time.Hour, func() {
+						if kind == KClient {
+							s := cl.CallClientStream(ctx)
+							time.Sleep(gap)
+							sentAt = time.Now()
+							_ = s.Send(&BV{Value: []byte{1}})
+							_, _ = s.CloseAndReceive()
+							return
+						}
+						s := cl.CallBidiStream(ctx)
+						time.Sleep(gap)
+						sentAt = time.Now()
+						_ = s.Send(&BV{Value: []byte{1}})
+						_ = s.CloseRequest()
+						for {
+							if _, err := s.Receive(); err != nil {
+								break
+							}
+						}
+						_ = s.CloseResponse()
+					}, tr)
+					c.AddTransitions(3)
+					c.AddStates(3)
+					c.AddTraces(1)
+					tags := []string{"proto=" + p.String(), "side=client", "mode=late-send"}
+					if g.Hung || g.Panicked {
+						c.Violation("TestC10", "terminates", "hang-or-panic", tags, key, "%s: hung=%v panic=%v", key, g.Hung, g.Panic)
+						BailIfStuck(c, g)
+						return
+					}
+					clientDeadline, _ := ctx.Deadline()
+					left := clientDeadline.Sub(sentAt)
+					if probe.has && probe.deadline.After(clientDeadline) {
+						c.Violation("TestC10", "never-longer", "handler-deadline-later", tags, key, "%s: the request left with %v remaining, the handler's deadline is %v after the client's", key, left, probe.deadline.Sub(clientDeadline))
+						c.Outcome("violation")
+						return
+					}
+					c.Outcome("ok-sent")
+				})
+			}
+		}
+	}
+}
+
 func TestC10(t *testing.T) {
 	c := ev.New("C10")
 	defer func() { _ = c.Finish() }()
-	c.SetRule("domain enumeration: (client) durations at every unit x digit-count boundary (10^k, 10^k+-1, 9*10^k, 5*10^k+3 of each unit, each +-1 ns), Connect's 1 ms and 10-digit limits, 2^63-1, plus no deadline, through real calls inside a synctest bubble whose fake clock makes the remaining time exact, x 3 protocols x RPC kinds; (pure) every duration 1..N ns through the gRPC encoder and parser against an independent grammar; (handler) every header string of length <= L over {0,1,9,n,u,m,S,M,H,x,space,-} plus unit x 1..12 digit forms and overflow boundaries into real handlers of each protocol; oracle from the property's grammar; strings with a sign or zero-padded beyond the digit limit are recorded but not judged")
+	c.SetRule("domain enumeration: (client) durations at every unit x digit-count boundary (10^k, 10^k+-1, 9*10^k, 5*10^k+3 of each unit, each +-1 ns), Connect's 1 ms and 10-digit limits, 2^63-1, plus no deadline, through real calls inside a synctest bubble whose fake clock makes the remaining time exact, x 3 protocols x RPC kinds; (pure) every duration 1..N ns through the gRPC encoder and parser against an independent grammar; (handler) every header string of length <= L over {0,1,9,n,u,m,S,M,H,x,space,-} plus unit x 1..12 digit forms and overflow boundaries into real handlers of each protocol; oracle from the property's grammar; strings zero-padded beyond the digit limit are recorded but not judged; a sign is not a digit (malformed); (late send) a streaming call created with D left whose first Send happens 400 ms later")
 	c.Assume("testing/synctest fake clock (no time passes during a call)", "header values cannot carry leading/trailing whitespace (HTTP strips it)")
 	if ev.ReplayFile() != "" {
 		var hk c10HeaderCase
@@ -607,7 +677,12 @@ func TestC10(t *testing.T) {
 				if mode == "reuse-request" && kind != KUnary {
 					continue
 				}
-				for _, d := range []time.Duration{1500 * time.Millisecond, 123456789, 2 * time.Hour} {
+				durations := []time.Duration{1500 * time.Millisecond, 123456789, 2 * time.Hour}
+				if mode == "reuse-request" {
+					// also: no deadline the second time, and one too far away for Connect's ten digits
+					durations = append(durations, 0, 200*24*time.Hour)
+				}
+				for _, d := range durations {
 					idx++
 					if !ev.Mine(idx) {
 						continue
@@ -619,6 +694,7 @@ func TestC10(t *testing.T) {
 			}
 		}
 	}
+	c10LateSend(t, c)
 	strs := c10HeaderStrings(thorough)
 	for _, p := range AllProtos {
 		for _, kind := range []Kind{KUnary, KServer} {
